@@ -26,6 +26,7 @@ type c16Level struct {
 	RIDEnt uint32  `json:"rid_ent"`
 	RID    obs.Hex `json:"rid"`
 	Extra  bool    `json:"extra"`           // an unrelated option (relay port) at this level
+	Generic int    `json:"generic,omitempty"` // bit 1 / 2 / 4: the interface-id / remote-id / relay-port option is held as *OptionGeneric with the same code and bytes
 	Order  int     `json:"order,omitempty"` // which permutation of this level's options (relay message, interface-id, relay port, remote-id) is used
 }
 
@@ -48,6 +49,10 @@ func treeOf(d dhcpv6.DHCPv6) *refv6.Msg {
 func sameTree(a, b dhcpv6.DHCPv6) string {
 	p, w := refv6.Diff(treeOf(a), treeOf(b), true)
 	if p == "" {
+		return ""
+	}
+	// the same message in another representation (a generic option where the other holds the typed one)
+	if bytes.Equal(a.ToBytes(), b.ToBytes()) {
 		return ""
 	}
 	return p + ": " + w
@@ -106,14 +111,22 @@ var c16 = newChk("C16", "relay-chain",
 			if err != nil || sameTree(back, cur) != "" {
 				return obs.Failf("C16/decapsulate-identity", "decapsulate(encapsulate(m)) == m", "err=%v diff=%s", err, sameTree(back, cur))
 			}
+			// the agent's options, typed or (same code, same bytes) generic: a relay-forward assembled in memory by code
+			// that does not know the typed forms is the same relay-forward
+			add := func(o dhcpv6.Option, generic bool) {
+				if generic {
+					o = &dhcpv6.OptionGeneric{OptionCode: o.Code(), OptionData: o.ToBytes()}
+				}
+				out.AddOption(o)
+			}
 			if lv.HasIID {
-				out.AddOption(dhcpv6.OptInterfaceID(append([]byte{}, lv.IID...)))
+				add(dhcpv6.OptInterfaceID(append([]byte{}, lv.IID...)), lv.Generic&1 != 0)
 			}
 			if lv.Extra {
-				out.AddOption(dhcpv6.OptRelayPort(1234))
+				add(dhcpv6.OptRelayPort(1234), lv.Generic&4 != 0)
 			}
 			if lv.HasRID {
-				out.AddOption(&dhcpv6.OptRemoteID{EnterpriseNumber: lv.RIDEnt, RemoteID: append([]byte{}, lv.RID...)})
+				add(&dhcpv6.OptRemoteID{EnterpriseNumber: lv.RIDEnt, RemoteID: append([]byte{}, lv.RID...)}, lv.Generic&2 != 0)
 			}
 			// relay agents put their options in any order: the relay message first, last or in between
 			if n := len(out.Options.Options); lv.Order > 0 && n > 1 {
@@ -225,14 +238,28 @@ var c16 = newChk("C16", "relay-chain",
 			if !bytes.Equal(r.LinkAddr.To16(), lv.Link) || !bytes.Equal(r.PeerAddr.To16(), lv.Peer) {
 				return obs.Failf("C16/relay-repl/addresses", fmt.Sprintf("link %x peer %x at %s", []byte(lv.Link), []byte(lv.Peer), tag), "link %x peer %x", []byte(r.LinkAddr), []byte(r.PeerAddr))
 			}
-			iid := r.Options.InterfaceID()
-			hasIID := r.GetOneOption(dhcpv6.OptionInterfaceID) != nil
-			if hasIID != lv.HasIID || (lv.HasIID && !bytes.Equal(iid, lv.IID)) {
-				return obs.Failf("C16/relay-repl/interface-id", fmt.Sprintf("present=%v %x at %s", lv.HasIID, []byte(lv.IID), tag), "present=%v %x", hasIID, iid)
+			// judged by option code and payload (whatever Go type carries them)
+			var iid []byte
+			io := r.GetOneOption(dhcpv6.OptionInterfaceID)
+			if io != nil {
+				iid = io.ToBytes()
 			}
-			rid := r.Options.RemoteID()
-			if (rid != nil) != lv.HasRID || (lv.HasRID && (rid.EnterpriseNumber != lv.RIDEnt || !bytes.Equal(rid.RemoteID, lv.RID))) {
-				return obs.Failf("C16/relay-repl/remote-id", fmt.Sprintf("present=%v at %s", lv.HasRID, tag), "%v", rid)
+			if (io != nil) != lv.HasIID || (lv.HasIID && !bytes.Equal(iid, lv.IID)) {
+				return obs.Failf("C16/relay-repl/interface-id", fmt.Sprintf("present=%v %x at %s", lv.HasIID, []byte(lv.IID), tag), "present=%v %x", io != nil, iid)
+			}
+			ro := r.GetOneOption(dhcpv6.OptionRemoteID)
+			wantRID := append([]byte{byte(lv.RIDEnt >> 24), byte(lv.RIDEnt >> 16), byte(lv.RIDEnt >> 8), byte(lv.RIDEnt)}, lv.RID...)
+			if (ro != nil) != lv.HasRID || (lv.HasRID && !bytes.Equal(ro.ToBytes(), wantRID)) {
+				return obs.Failf("C16/relay-repl/remote-id", fmt.Sprintf("present=%v %x at %s", lv.HasRID, wantRID, tag), "%v", ro)
+			}
+			if lv.Generic&^7 == 0 && lv.Generic == 0 {
+				// typed in, typed out: the typed accessors see them too
+				if rid := r.Options.RemoteID(); (rid != nil) != lv.HasRID || (lv.HasRID && (rid.EnterpriseNumber != lv.RIDEnt || !bytes.Equal(rid.RemoteID, lv.RID))) {
+					return obs.Failf("C16/relay-repl/remote-id", fmt.Sprintf("present=%v at %s", lv.HasRID, tag), "%v", rid)
+				}
+				if got := r.Options.InterfaceID(); lv.HasIID && !bytes.Equal(got, lv.IID) {
+					return obs.Failf("C16/relay-repl/interface-id", fmt.Sprintf("%x at %s", []byte(lv.IID), tag), "%x", got)
+				}
 			}
 		}
 		rim, err := rr.GetInnerMessage()
@@ -287,6 +314,7 @@ func genC16() *rapid.Generator[c16Case] {
 			lv := c16Level{Link: rapid.SliceOfN(rapid.Byte(), 16, 16).Draw(t, "link"), Peer: rapid.SliceOfN(rapid.Byte(), 16, 16).Draw(t, "peer"),
 				HasIID: rapid.Bool().Draw(t, "iid"), HasRID: rapid.Bool().Draw(t, "rid"), Extra: rapid.IntRange(0, 3).Draw(t, "extra") == 0,
 				RIDEnt: rapid.Uint32().Draw(t, "ent"), Order: rapid.SampledFrom([]int{0, 0, 1, 2, 3, 5, 7, 11, 13, 17, 23}).Draw(t, "order")}
+			lv.Generic = rapid.SampledFrom([]int{0, 0, 0, 1, 2, 3, 4, 7}).Draw(t, "generic")
 			lv.IID = gen.Fill(t, rapid.IntRange(0, 12).Draw(t, "iidlen"), "iidv")
 			lv.RID = gen.Fill(t, rapid.IntRange(0, 12).Draw(t, "ridlen"), "ridv")
 			c.Levels = append(c.Levels, lv)
@@ -396,6 +424,33 @@ var c16b = newChk("C16", "message-builders",
 			}
 			if t.Type == 1 && firstOf(pt, 14) == nil {
 				return obs.Failf("C16/reply/rapid-commit", "rapid commit option in the reply to a rapid-commit SOLICIT", "absent")
+			}
+		}
+		// an input the builder must refuse is refused whatever modifiers the caller passes along (the modifiers shape
+		// the answer; they do not supply what the request lacks)
+		mods := []dhcpv6.Modifier{
+			dhcpv6.WithClientID(&dhcpv6.DUIDLL{HWType: 1, LinkLayerAddr: net.HardwareAddr{2, 0, 0, 0, 0, 7}}),
+			dhcpv6.WithServerID(&dhcpv6.DUIDLL{HWType: 1, LinkLayerAddr: net.HardwareAddr{2, 0, 0, 0, 0, 8}}),
+			dhcpv6.WithIANA(dhcpv6.OptIAAddress{IPv6Addr: net.ParseIP("2001:db8::7"), PreferredLifetime: time.Hour, ValidLifetime: time.Hour}),
+			dhcpv6.WithOption(dhcpv6.OptClientID(&dhcpv6.DUIDLL{HWType: 1, LinkLayerAddr: net.HardwareAddr{2, 0, 0, 0, 0, 9}})),
+			dhcpv6.WithRapidCommit,
+		}
+		for mi := 0; mi < len(mods); mi++ {
+			ms := []dhcpv6.Modifier{mods[mi], mods[(mi+1)%len(mods)]}
+			if adv == nil {
+				if _, err := dhcpv6.NewAdvertiseFromSolicit(m, ms...); err == nil {
+					return obs.Failf("C16/advertise/verdict-with-modifiers", "an input refused without modifiers is refused with them", "accepted with modifiers %d,%d (type %d, client id %v)", mi, (mi+1)%len(mods), t.Type, cid != nil)
+				}
+			}
+			if req == nil {
+				if _, err := dhcpv6.NewRequestFromAdvertise(m, ms...); err == nil {
+					return obs.Failf("C16/request/verdict-with-modifiers", "an input refused without modifiers is refused with them", "accepted with modifiers %d,%d (type %d)", mi, (mi+1)%len(mods), t.Type)
+				}
+			}
+			if rep == nil && t.Type != 9 {
+				if _, err := dhcpv6.NewReplyFromMessage(m, ms...); err == nil {
+					return obs.Failf("C16/reply/verdict-with-modifiers", "an input refused without modifiers is refused with them", "accepted with modifiers %d,%d (type %d)", mi, (mi+1)%len(mods), t.Type)
+				}
 			}
 		}
 		// nil inputs are refused
